@@ -125,8 +125,11 @@ class SimEvent:
         try:
             s.block(lambda: tok[0], timeout, "ev-block", self.label)
         finally:
-            if tok in self.waiters:
-                self.waiters.remove(tok)
+            # by identity: tokens of different waiters compare equal as lists
+            for i, t in enumerate(self.waiters):
+                if t is tok:
+                    del self.waiters[i]
+                    break
         return tok[0]
 
 
